@@ -198,6 +198,7 @@ def run_c18(ctx):
         "byte_strings": r["strings"], "of_which_minimal": r["minimal_strings"], "integers": r["integers"],
         "locktime_operand_sessions": r.get("locktime_operand_sessions", 0),
     }
+    cov["bounds"].append("unary numeric opcodes (1ADD 1SUB NEGATE ABS NOT 0NOTEQUAL) on the same operand strings of length 0..4, with and without MINIMALDATA: the result is the minimal encoding of the value (counted with the lock-time operand sessions)")
     cov["bounds"].append("lock-time operands: every string of length 0..1 and {00,01,7f,80,ff}^k x all 256 top bytes for k = 1..4 (lengths 2..5), plus a 6-byte string, "
                          "as the operand of OP_CHECKLOCKTIMEVERIFY and of OP_CHECKSEQUENCEVERIFY through the interpreter, with and without MINIMALDATA (outcome and stack vs the reference)")
     cov["states"] += cov["locktime_operand_sessions"]
@@ -243,7 +244,8 @@ def run_c05(ctx):
     sess_tap = 0
     if "infra_error" not in r3:
         # ... and the size rule (33+32m bytes, m <= 128), which is enforced where the session is configured
-        viol += [v for v in r3["violations"] if v["key"].startswith("commitment:") or v["key"] == "failed-step-then-step-succeeds:commitment" or "control block" in v["key"]]
+        viol += [v for v in r3["violations"] if v["key"].startswith("commitment:") or v["key"] == "failed-step-then-step-succeeds:commitment" or "control block" in v["key"]
+                 or v["key"].startswith("refuses-valid-spend:p2tr-script") or v["key"].startswith("setup:script:p2tr-script") or v["key"].startswith("invalid-verdict-for-valid-spend:p2tr-script")]
         sess_tap = r3["by_type"].get("p2tr-script", 0)
     c = r["classes"]
     cov = {
@@ -336,6 +338,11 @@ def run_c09(ctx):
     rb = run_engine(ctx, "mc_script", ["--mode", "c09b"])
     if "infra_error" in rb:
         return _infra("model_checking", rb)
+    rs = run_engine(ctx, "mc_spend", ["--mode", "c09s"])
+    if "infra_error" in rs:
+        return _infra("model_checking", rs)
+    rb["violations"] = list(rb["violations"]) + list(rs["violations"])
+    rb["plan"] = list(rb["plan"]) + ["spend level: %d auto-configured --tx/--txin sessions (the C03 generator's valid spends and single-item deviations of every output type, plus hand-made P2SH / bare spends with non-push-only scriptSigs) x 18 non-activation flags (SIGPUSHONLY among them): the debugger's verdict with the flag set vs without it, %d edges, %d of them outcome-changing" % (rs["spends"], rs["edges"], rs["outcome_changing_edges"])]
     cova = ra["coverage"]
     cov = {
         "states": cova.get("states", 0) + rb["mono_scripts"], "transitions": cova.get("transitions", 0) + rb["mono_scripts"] * 256,
@@ -359,6 +366,8 @@ def replay_c09(ctx, path):
     rec = _j.load(open(path))
     if isinstance(rec.get("replay"), dict) and rec["replay"].get("engine") == "mc_script":
         return replay_engine("mc_script")(ctx, path)
+    if isinstance(rec.get("replay"), dict) and rec["replay"].get("engine") == "mc_spend":
+        return replay_engine("mc_spend")(ctx, path)
     import c09_flags
     return c09_flags.replay(ctx, path)
 
@@ -374,7 +383,7 @@ PROPS = {
     "C15": dict(targets=["btcdeb", "btcc", "tap", "btcdeb_tty"], asan_targets=["btcdeb", "btcc", "tap", "btcdeb_tty", "mc_bounds", "kerlhist", "btcdeb_tty_rl"], run=_lazy("c15_crash", "run"), replay=_lazy("c15_crash", "replay")),
     "C12": dict(targets=["btcdeb", "btcdeb_tty", "mc_refcli", "mc_gen"], run=_lazy("c12_listing", "run"), replay=_lazy("c12_listing", "replay")),
     "C08": dict(targets=["btcdeb", "btcdeb_tty", "mc_refcli", "mc_gen"], run=_lazy("c08_batch", "run"), replay=_lazy("c08_batch", "replay")),
-    "C09": dict(targets=["btcdeb", "btcdeb_tty", "mc_refcli", "mc_script"], run=run_c09, replay=replay_c09),
+    "C09": dict(targets=["btcdeb", "btcdeb_tty", "mc_refcli", "mc_script", "mc_spend"], run=run_c09, replay=replay_c09),
     "C13": dict(targets=["mc_tx"], run=run_c13, replay=replay_engine("mc_tx")),
     "C02": dict(targets=["mc_sig"], run=run_c02, replay=replay_engine("mc_sig")),
     "C11": dict(targets=["mc_sig"], run=run_c11, replay=replay_engine("mc_sig")),
